@@ -316,10 +316,10 @@ func runRace(f lib.Flags, res *lib.Result, tbl *Table) {
 		seed  int64
 	}
 	var jobs []job
-	rounds := f.N(1, 4)
+	rounds := f.N(1, 6)
 	for r := 0; r < rounds; r++ {
 		for _, sc := range scenarios {
-			jobs = append(jobs, job{sc, 4 + rng.Intn(13), f.N(150, 400), f.Seed*100 + int64(r)})
+			jobs = append(jobs, job{sc, 4 + rng.Intn(13), f.N(1500, 3000) * sc.Scale, f.Seed*100 + int64(r)})
 		}
 	}
 	results := make([]childResult, len(jobs))
@@ -347,6 +347,16 @@ func runRace(f lib.Flags, res *lib.Result, tbl *Table) {
 		if cr.Err != "" {
 			errs = append(errs, cr.Scenario+": "+cr.Err)
 			continue
+		}
+		if cr.Fatal != "" {
+			kind := strings.SplitN(cr.Fatal, "\n", 2)[0]
+			fin := map[string]any{}
+			for k, v := range in {
+				fin[k] = v
+			}
+			fin["runtime_report"] = cr.Fatal
+			mon.Violate("C11/race/"+cr.Scenario+"/"+strings.ReplaceAll(strings.TrimPrefix(kind, "fatal error: "), " ", "-"),
+				"the Go runtime aborted the workload: "+kind, fin, "no data race", kind)
 		}
 		mon.Eval(fmt.Sprintf("%s/g=%d", cr.Scenario, cr.G), true, map[string]any{"scenario": cr.Scenario, "goroutines": cr.G, "iters": cr.Iters, "reports": len(cr.Reports)})
 		mon.Count(fmt.Sprintf("%s reports=%d", cr.Scenario, len(cr.Reports)))
